@@ -41,7 +41,7 @@ def roundtrip(h, n=2, m1="poincare", m2="klein", shape=(), ideal=False):
 
 def _E(h, d):
     """exp(d): distances are compared through exp (monotone), which is algebraic in the inputs"""
-    return d.expo() if h.is_sym() else np.exp(d)
+    return h.expo(d)
 
 
 def _metric_formula(h, model, u, v):
